@@ -230,7 +230,8 @@ def prefix_until_terminal(frames: List[Dict[str, Any]]) -> Tuple[List[Dict[str, 
 
 _MODEL_CLASSES: Dict[str, Any] = {}
 # python field name -> alias, per class (the oracle's own statement of "dump by GraphQL names")
-MODEL_ALIASES = {"Inner": {"x": "x", "y_val": "yVal"}, "Outer": {"id": "id", "inner": "inner", "tag_list": "tagList", "n": "n", "others": "others"}}
+MODEL_ALIASES = {"Inner": {"x": "x", "y_val": "yVal"}, "Outer": {"id": "id", "inner": "inner", "tag_list": "tagList", "n": "n", "others": "others"},
+                 "Stamped": {"since": "since", "label": "label", "inner": "inner"}}
 
 
 def model_classes() -> Dict[str, Any]:
@@ -251,8 +252,80 @@ def model_classes() -> Dict[str, Any]:
         n: Optional[int] = None
         others: Optional[List[Inner]] = None
 
-    _MODEL_CLASSES.update({"Inner": Inner, "Outer": Outer})
+    import datetime as _dt
+
+    class Stamped(base):  # type: ignore[misc,valid-type]
+        since: _dt.datetime
+        label: Optional[str] = None
+        inner: Optional[Inner] = None
+
+    _MODEL_CLASSES.update({"Inner": Inner, "Outer": Outer, "Stamped": Stamped})
     return _MODEL_CLASSES
+
+
+def foreign_build(pv: List[Any]) -> Any:
+    """["foreign", kind, text]: a Python object json.dumps (no default=) rejects"""
+    import datetime as _dt
+    import decimal
+    import io
+    import uuid
+
+    kind = pv[1]
+    if kind == "datetime":
+        return _dt.datetime.fromisoformat(pv[2])
+    if kind == "date":
+        return _dt.date.fromisoformat(pv[2])
+    if kind == "decimal":
+        return decimal.Decimal(pv[2])
+    if kind == "uuid":
+        return uuid.UUID(pv[2])
+    if kind == "upload":
+        return clients.base_model_module().Upload(filename="a.txt", content=io.BytesIO(b"x"), content_type="text/plain")
+    raise common.Infra(f"bad foreign spec {pv}")
+
+
+def foreign_expected(pv: List[Any]) -> Any:
+    """what pydantic's own serialisation sends for it (the oracle's reading; independent of to_jsonable_python)"""
+    if pv[1] in ("datetime", "date", "decimal", "uuid"):
+        return pv[2]
+    raise NotSerialisable("an Upload cannot travel over a websocket")
+
+
+def jsonable_of(value: Any) -> Any:
+    """the `jsonable` an `.foreign` PV carries: pydantic_core.to_jsonable_python, None when it refuses"""
+    from pydantic_core import to_jsonable_python
+
+    try:
+        return {"j": wire.enc(to_jsonable_python(value))}
+    except Exception:
+        return None
+
+
+def py_to_pvline(value: Any) -> List[Any]:
+    """a python-mode dump (model_dump) -> the driver's PV encoding"""
+    if value is None:
+        return ["null"]
+    if isinstance(value, bool):
+        return ["bool", value]
+    if isinstance(value, (int, float)):
+        return ["num", value]
+    if isinstance(value, str):
+        return ["str", value]
+    if isinstance(value, list):
+        return ["list", [py_to_pvline(x) for x in value]]
+    if isinstance(value, dict):
+        return ["dict", [[k, py_to_pvline(v)] for k, v in value.items()]]
+    return ["foreign", jsonable_of(value)]
+
+
+def json_native(value: Any) -> bool:
+    if value is None or isinstance(value, (bool, int, float, str)):
+        return True
+    if isinstance(value, list):
+        return all(json_native(x) for x in value)
+    if isinstance(value, dict):
+        return all(isinstance(k, str) and json_native(v) for k, v in value.items())
+    return False
 
 
 def pv_build(pv: List[Any]) -> Any:
@@ -271,6 +344,8 @@ def pv_build(pv: List[Any]) -> Any:
         return [pv_build(x) for x in pv[1]]
     if tag == "dict":
         return {k: pv_build(v) for k, v in pv[1]}
+    if tag == "foreign":
+        return foreign_build(pv)
     raise common.Infra(f"bad pv spec {pv}")
 
 
@@ -299,6 +374,8 @@ def pv_expected(pv: List[Any], top: bool, in_dict: bool = False) -> Any:
         return [pv_expected(x, False, in_dict) for x in pv[1]]
     if tag == "dict":
         return {k: pv_expected(v, False, True) for k, v in pv[1]}
+    if tag == "foreign":
+        return foreign_expected(pv)
     raise common.Infra(f"bad pv spec {pv}")
 
 
@@ -326,11 +403,16 @@ def pv_line(pv: List[Any]) -> List[Any]:
         return [tag, pv[1]]
     if tag == "model":
         inst = pv_build(pv)
-        return ["model", wire.enc(inst.model_dump(by_alias=True, exclude_unset=True))]
+        dump = inst.model_dump(by_alias=True, exclude_unset=True)
+        if json_native(dump):
+            return ["model", wire.enc(dump)]
+        return ["modelPy", [[k, py_to_pvline(v)] for k, v in dump.items()]]  # a field holds a datetime / Decimal / ...
     if tag == "list":
         return ["list", [pv_line(x) for x in pv[1]]]
     if tag == "dict":
         return ["dict", [[k, pv_line(v)] for k, v in pv[1]]]
+    if tag == "foreign":
+        return ["foreign", jsonable_of(pv_build(pv))]
     raise common.Infra(f"bad pv spec {pv}")
 
 
@@ -338,6 +420,13 @@ M_INNER = ["model", {"cls": "Inner", "kw": {"x": ["num", 1], "y_val": ["str", "y
 M_INNER_MIN = ["model", {"cls": "Inner", "kw": {"x": ["num", 2]}}]
 M_OUTER = ["model", {"cls": "Outer", "kw": {"id": ["str", "o1"], "inner": M_INNER, "tag_list": ["list", [["str", "t1"], ["str", "t2"]]]}}]
 M_OUTER_NULLS = ["model", {"cls": "Outer", "kw": {"id": ["str", "o2"], "inner": ["null"], "n": ["num", 0], "others": ["list", [M_INNER_MIN, M_INNER]]}}]
+
+F_DATETIME = ["foreign", "datetime", "2020-01-01T00:00:00"]
+F_DECIMAL = ["foreign", "decimal", "1.50"]
+F_UUID = ["foreign", "uuid", "12345678-1234-5678-1234-567812345678"]
+F_UPLOAD = ["foreign", "upload"]
+M_STAMPED = ["model", {"cls": "Stamped", "kw": {"since": F_DATETIME, "label": ["str", "l"]}}]
+M_STAMPED_INNER = ["model", {"cls": "Stamped", "kw": {"since": ["foreign", "datetime", "2021-02-03T04:05:06"], "inner": M_INNER_MIN}}]
 
 VARS_TABLE: List[Tuple[str, Optional[List[Any]]]] = [
     ("none", None),
@@ -354,6 +443,14 @@ VARS_TABLE: List[Tuple[str, Optional[List[Any]]]] = [
     ("unset-in-dict", [["a", ["dict", [["k", ["unset"]]]]]]),
     ("model-in-dict", [["a", ["dict", [["k", M_INNER]]]]]),
     ("model-in-dict-in-list", [["a", ["list", [["dict", [["k", M_INNER_MIN]]]]]]]),
+    # C13-F4: custom scalars "supported by pydantic" - inside the reading, json.dumps (no default=) raises TypeError
+    ("datetime-top", [["since", F_DATETIME], ["n", ["num", 1]]]),
+    ("datetime-in-model", [["w", M_STAMPED], ["skip", ["unset"]]]),
+    ("decimal-in-list", [["amounts", ["list", [F_DECIMAL, ["null"]]]], ["id", F_UUID]]),
+    ("datetime-in-model-in-list", [["ws", ["list", [M_STAMPED, M_STAMPED_INNER]]]]),
+    # outside the reading: an Upload cannot be sent over the socket (refused with the same TypeError)
+    ("upload-top", [["file", F_UPLOAD]]),
+    ("upload-in-list", [["files", ["list", [F_UPLOAD]]], ["a", ["num", 1]]]),
 ]
 
 INIT_TABLE: List[Tuple[str, Any]] = [
@@ -629,15 +726,13 @@ def streamed(case: Dict[str, Any]) -> Optional[List[Dict[str, Any]]]:
         return None
     if letter(frames[0])[0] != "ack":
         return None
-    if vars_dumpable(case["vars"]) is False:
-        return None
-    return frames[1:]
+    return frames[1:]  # twin of Spec `streamed`: a function of the configuration and the frames alone
 
 
 def vars_dumpable(vs: Optional[List[Any]]) -> bool:
     """can json.dumps (no default=) serialise the converted variables? (structural, on the spec)"""
     def raw_ok(pv: List[Any]) -> bool:
-        if pv[0] in ("unset", "model"):
+        if pv[0] in ("unset", "model", "foreign"):
             return False
         if pv[0] == "list":
             return all(raw_ok(x) for x in pv[1])
@@ -647,7 +742,7 @@ def vars_dumpable(vs: Optional[List[Any]]) -> bool:
 
     def conv_ok(pv: List[Any]) -> bool:
         if pv[0] == "model":
-            return True
+            return not spec_has_foreign(pv)
         if pv[0] == "list":
             return all(conv_ok(x) for x in pv[1])
         return raw_ok(pv)
@@ -655,6 +750,58 @@ def vars_dumpable(vs: Optional[List[Any]]) -> bool:
     if not vs:
         return True
     return all(pv[0] == "unset" or conv_ok(pv) for _, pv in vs)
+
+
+def spec_has_foreign(pv: List[Any]) -> bool:
+    """twin of Spec `hasForeign` on the harness's specs (a model's dump holds its fields' values)"""
+    if pv[0] == "foreign":
+        return True
+    if pv[0] == "list":
+        return any(spec_has_foreign(x) for x in pv[1])
+    if pv[0] == "dict":
+        return any(spec_has_foreign(v) for _, v in pv[1])
+    if pv[0] == "model":
+        return any(spec_has_foreign(v) for v in pv[1]["kw"].values())
+    return False
+
+
+def spec_plain_pf(pv: List[Any]) -> bool:
+    """twin of Spec `plainPF`: JSON-native data, possibly with pydantic-serialisable foreign leaves"""
+    if pv[0] in ("null", "bool", "num", "str"):
+        return True
+    if pv[0] == "foreign":
+        return pv[1] != "upload"
+    if pv[0] == "list":
+        return all(spec_plain_pf(x) for x in pv[1])
+    if pv[0] == "dict":
+        return all(spec_plain_pf(v) for _, v in pv[1])
+    return False
+
+
+def spec_readable(pv: List[Any]) -> bool:
+    """twin of Spec `readable`"""
+    if pv[0] in ("null", "bool", "num", "str"):
+        return True
+    if pv[0] == "foreign":
+        return pv[1] != "upload"
+    if pv[0] == "model":
+        # the python-mode dump: nested models are dumped to dicts; it must be plain data (+ foreign leaves)
+        def dump_ok(v: List[Any]) -> bool:
+            if v[0] == "model":
+                return all(dump_ok(x) for x in v[1]["kw"].values())
+            if v[0] == "list":
+                return all(dump_ok(x) for x in v[1])
+            return spec_plain_pf(v)
+        return all(dump_ok(v) for v in pv[1]["kw"].values())
+    if pv[0] == "list":
+        return all(spec_readable(x) for x in pv[1])
+    if pv[0] == "dict":
+        return all(spec_plain_pf(v) for _, v in pv[1])
+    return False  # unset below the top level
+
+
+def vars_readable(vs: Optional[List[Any]]) -> bool:
+    return all(pv[0] == "unset" or spec_readable(pv) for _, pv in (vs or []))
 
 
 def triggers(case: Dict[str, Any]) -> Dict[str, bool]:
@@ -668,7 +815,10 @@ def triggers(case: Dict[str, Any]) -> Dict[str, bool]:
         binary = term is not None and term["t"] == "bytes"
     if not dup and case["frames"] and case["frames"][0]["t"] == "bytes":
         binary = True
-    return {"falsyNextData": falsy, "binaryNotUtf8": binary, "extraHeadersKwarg": not dup}
+    vs = case["vars"]
+    need_default = (not dup and bool(case["frames"]) and letter(case["frames"][0])[0] == "ack" and vars_readable(vs)
+                    and any(spec_has_foreign(pv) for _, pv in (vs or [])))
+    return {"falsyNextData": falsy, "binaryNotUtf8": binary, "varsNeedJsonableDefault": need_default, "extraHeadersKwarg": not dup}
 
 
 def expected_headers(cfg: Dict[str, Any]) -> Dict[str, Any]:
@@ -775,6 +925,10 @@ def oracle(case: Dict[str, Any], obs: Dict[str, Any]) -> List[Tuple[str, Optiona
             fail("more-than-one-subscribe")
         return fails  # variables outside the reading of "serialised variables": not judged further
     rest = rest[1:]
+    if trig["varsNeedJsonableDefault"] and outcome == {"o": "internal", "exc": "TypeError"} and len(sends) == 1:
+        # inside the reading (a datetime / Decimal / UUID custom scalar), yet json.dumps(payload) raised: no subscribe
+        fail("subscribe-not-sent-variables-need-jsonable-default", "varsNeedJsonableDefault", obs.get("exc_msg", ""))
+        return fails
     want_payload: Dict[str, Any] = {"query": QUERY, "operationName": cfg["opName"]}
     if kind == "present":
         want_payload["variables"] = want_vars
@@ -888,7 +1042,9 @@ def judge_cases(ctx: Ctx, st: Optional[LeanStatus], todo: List[Dict[str, Any]], 
             per_variant.append(obs)
             res.count("outcome:" + obs["outcome"]["o"] + (":" + obs["outcome"]["exc"] if obs["outcome"]["o"] == "internal" else ""))
             inp = {**case, "client": client, "tracer": tracer}
-            for sig, trigger, detail in oracle(case, obs):
+            verdicts = oracle(case, obs)
+            region = next((k for k in ("falsyNextData", "binaryNotUtf8", "varsNeedJsonableDefault") if trig[k]), None)
+            for sig, trigger, detail in verdicts:
                 key = f"{trigger}|{sig}"
                 kept[key] = kept.get(key, 0) + 1
                 res.count("oracle-failure:" + key)
@@ -897,7 +1053,9 @@ def judge_cases(ctx: Ctx, st: Optional[LeanStatus], todo: List[Dict[str, Any]], 
             if model_out is not None:
                 m = model_out[ci * len(VARIANTS) + vi]
                 if not common.same_json(strip_obs(obs), {"events": m["events"], "outcome": m["outcome"]}):
-                    add_mismatch(res, Mismatch("execute_ws", inp, strip_obs(obs), {"events": m["events"], "outcome": m["outcome"]}))
+                    # inside a finding region and the oracle sees nothing but listed findings: a listed defect was repaired (INFO, DESIGN.md 1.4)
+                    add_mismatch(res, Mismatch("execute_ws", inp, strip_obs(obs), {"events": m["events"], "outcome": m["outcome"]},
+                                               trigger=region if region and all(t is not None for _, t, _ in verdicts) else None))
                 if vi == 0:
                     if m["letters"] != [letter(f)[0] for f in case["frames"]]:
                         add_mismatch(res, Mismatch("letter", case["frames"], [letter(f)[0] for f in case["frames"]], m["letters"]))
@@ -913,7 +1071,7 @@ def judge_cases(ctx: Ctx, st: Optional[LeanStatus], todo: List[Dict[str, Any]], 
                     if kept[key] <= MAX_KEPT_PER_KEY:
                         res.failures.append(Failure("ot-variant-differs", None, {**case, "client": client, "tracer": tracer},
                                                     f"plain={json.dumps(first, default=repr)[:300]} {client}+tracer={tracer}: {json.dumps(strip_obs(obs), default=repr)[:300]}"))
-        st_frames = streamed(case)
+        st_frames = streamed(case) if vars_dumpable(case["vars"]) else None
         res.seen([case["cfg"], case["vars"], case["frames"]], nontrivial=st_frames is not None and len(st_frames) > 0)
         res.count("len:%d" % min(len(case["frames"]), 13))
         if case.get("label") in ("sample",) and per_variant:
@@ -1003,7 +1161,10 @@ def judge_parallel(ctx: Ctx, st: Optional[LeanStatus], todo: List[Dict[str, Any]
         judge_cases(ctx, st, part, sub, compare)
         return sub
 
-    outs = fork_map(work, slices, timeout=1500.0)
+    import os
+
+    # the budget is sized for 14 workers; fewer workers (VERIF_PROCS on a shared machine) get proportionally more time
+    outs = fork_map(work, slices, timeout=1500.0 * max(1.0, 14.0 / max(1, int(os.environ.get("VERIF_PROCS", "14")))))
     for i, (status, val) in enumerate(outs):
         if status == "ok":
             res.merge(val)
@@ -1421,6 +1582,8 @@ def validate_connect_spec(ctx: Ctx, st: Optional[LeanStatus], res: Result) -> No
 #             ["input", InputName, {graphql field name: spec}];   an omitted variable = argument left UNSET
 
 GEN_SDL_HEAD = """
+scalar DateTime
+input Window { since: DateTime! label: String }
 type Query { ping: String }
 type Hit { id: ID! title: String! score: Int tags: [String!] }
 enum Kind { A B }
@@ -1463,6 +1626,8 @@ def gen_value(rng: Any, typ: str) -> List[Any]:
 def value_expected(spec: List[Any]) -> Any:
     """the oracle's reading of 'serialised': GraphQL names, enum member names, only the given input fields"""
     tag = spec[0]
+    if tag == "datetime":
+        return spec[1]
     if tag == "null":
         return None
     if tag in ("str", "num", "bool"):
@@ -1532,6 +1697,17 @@ def fixed_generated_cases() -> List[Dict[str, Any]]:
         ops[0]["vars"][0]["type"] = "String!"
         ops[0]["calls"] = [{"query": ["str", "needle"], "limit": ["num", 3]}, {"query": ["str", "needle"]}]
         out.append(finish_generated_case(ops, snake, ot, ci, "generated-fixed"))
+    # C13-F4 on a real generated package: a custom scalar "supported by pydantic" (README) as a subscription variable,
+    # at the top level and inside an input model; the third call does not use it and must go through
+    rng = random.Random("c13-fixed-datetime")
+    op = make_generated_op(rng, 2, ["since", "w", "limit"])
+    op["vars"] = [{"name": "since", "type": "DateTime"}, {"name": "w", "type": "Window"}, {"name": "limit", "type": "Int"}]
+    op["calls"] = [{"since": ["datetime", "2020-01-01T00:00:00"], "limit": ["num", 1]},
+                   {"w": ["input", "Window", {"since": ["datetime", "2021-02-03T04:05:06"], "label": ["str", "l"]}]},
+                   {"limit": ["num", 2]}]
+    case = finish_generated_case([op], True, False, 0, "generated-fixed")
+    case["config"]["scalars"] = {"DateTime": {"type": "datetime.datetime"}}
+    out.append(case)
     return out
 
 
@@ -1613,6 +1789,10 @@ def _alias_map(cls: Any) -> Dict[str, str]:
 
 def build_generated_value(pkg: Any, spec: List[Any]) -> Any:
     tag = spec[0]
+    if tag == "datetime":
+        import datetime as _dt
+
+        return _dt.datetime.fromisoformat(spec[1])
     if tag == "null":
         return None
     if tag in ("str", "num", "bool"):
@@ -1645,10 +1825,13 @@ def generated_pv_line(value: Any) -> List[Any]:
     if isinstance(value, str):
         return ["str", value]
     if isinstance(value, BaseModel):
-        return ["model", wire.enc(json.loads(json.dumps(value.model_dump(by_alias=True, exclude_unset=True))))]
+        dump = value.model_dump(by_alias=True, exclude_unset=True)
+        if json_native(dump):
+            return ["model", wire.enc(json.loads(json.dumps(dump)))]
+        return ["modelPy", [[k, py_to_pvline(v)] for k, v in dump.items()]]
     if isinstance(value, list):
         return ["list", [generated_pv_line(x) for x in value]]
-    raise common.Infra(f"unsupported argument value {value!r}")
+    return ["foreign", jsonable_of(value)]
 
 
 def generated_scripts(op: Dict[str, Any]) -> List[List[Dict[str, Any]]]:
@@ -1792,6 +1975,11 @@ def generated_oracle(case: Dict[str, Any], op: Dict[str, Any], rec: Dict[str, An
         return [("hang", None, "generated method")]
     sends = [e[1] for e in obs["events"] if e[0] == "send"]
     subs = [s for s in sends if isinstance(s, dict) and s.get("type") == PROTO["subscribe"]]
+    call_spec = op["calls"][run["call"]]
+    if (not subs and oc == {"o": "internal", "exc": "TypeError"} and len(sends) == 1 and letter(frames[0])[0] == "ack"
+            and any(gen_spec_has_datetime(v) for v in call_spec.values())):
+        return [("subscribe-not-sent-variables-need-jsonable-default", "varsNeedJsonableDefault",
+                 f"{op['name']}({', '.join(call_spec)}): {obs.get('exc_msg', '')}")]
     if len(subs) != 1:
         why = f"{len(subs)} subscribe messages; outcome {json.dumps(oc, default=repr)[:200]} {obs.get('exc_msg', '')}"
         return [("generated-not-exactly-one-subscribe", None, why)]
@@ -1820,6 +2008,16 @@ def generated_oracle(case: Dict[str, Any], op: Dict[str, Any], rec: Dict[str, An
     if (tl == "complete" and oc["o"] != "completed") or (tl == "error" and oc["o"] != "multi"):
         fails.append(("generated-method-wrong-outcome", None, repr(oc)[:200]))
     return fails
+
+
+def gen_spec_has_datetime(spec: List[Any]) -> bool:
+    if spec[0] == "datetime":
+        return True
+    if spec[0] == "list":
+        return any(gen_spec_has_datetime(x) for x in spec[1])
+    if spec[0] == "input":
+        return any(gen_spec_has_datetime(v) for v in spec[2].values())
+    return False
 
 
 def generated_model_line(case: Dict[str, Any], rec: Dict[str, Any], run: Dict[str, Any], frames: List[Dict[str, Any]]) -> Dict[str, Any]:
@@ -1860,8 +2058,9 @@ def judge_generated(ctx: Ctx, st: Optional[LeanStatus], cases: List[Dict[str, An
                 res.count("generated:variable:" + ("clash" if name in CLASH_NAMES else "underscored" if name in UNDERSCORED else "plain"))
             for run in rec["runs"]:
                 res.count("generated:runs")
-                for sig, trigger, detail in generated_oracle(case, op, rec, run):
-                    res.count("oracle-failure:None|" + sig)
+                run["_verdicts"] = generated_oracle(case, op, rec, run)
+                for sig, trigger, detail in run["_verdicts"]:
+                    res.count(f"oracle-failure:{trigger}|{sig}")
                     res.failures.append(Failure(sig, trigger, {**inp, "only_call": run.get("call"), "only_script": run.get("script")},
                                                 f"{op['name']} via {rec.get('method')}: {detail}"))
                 if "obs" in run:
@@ -1871,10 +2070,17 @@ def judge_generated(ctx: Ctx, st: Optional[LeanStatus], cases: List[Dict[str, An
         for (inp, op, rec, run), m in zip(refs, common.run_driver(ctx.prop, lines)):
             if m["body"] != rec["body"]:
                 add_mismatch(res, Mismatch("generated-method-body", {**inp, "method": rec.get("method")}, rec["body"], m["body"]))
+            # which value `model_validate` gets: the loop target is rebound on every round (Python's name lookup)
+            b = rec["body"]
+            yv = "item" if b["yieldArg"] == b["loopTarget"] else "arg" if b["yieldArg"] in rec["params"] else "other"
+            if m.get("yieldValue") not in (yv, "NameError" if yv == "other" else yv):
+                add_mismatch(res, Mismatch("generated-method-yield", {**inp, "method": rec.get("method")}, yv, m.get("yieldValue")))
             dm = decode_model({**m, "letters": [], "trig": {}})
             if not common.same_json(strip_obs(run["obs"]), {"events": dm["events"], "outcome": dm["outcome"]}):
+                repaired = all(t is not None for _, t, _ in run.get("_verdicts") or []) and any(gen_spec_has_datetime(v) for v in op["calls"][run["call"]].values())
                 add_mismatch(res, Mismatch("generated-method-run", {**inp, "only_call": run["call"], "only_script": run["script"]},
-                                           strip_obs(run["obs"]), {"events": dm["events"], "outcome": dm["outcome"]}))
+                                           strip_obs(run["obs"]), {"events": dm["events"], "outcome": dm["outcome"]},
+                                           trigger="varsNeedJsonableDefault" if repaired else None))
     # keep the stored failures bounded
     kept: Dict[str, int] = {}
     pruned = []
@@ -1889,6 +2095,527 @@ def run_generated(ctx: Ctx, st: Optional[LeanStatus], res: Result, n_random: int
     cases = fixed_generated_cases() + random_generated_cases(ctx, n_random)
     judge_generated(ctx, st, cases, res, compare)
     ctx.log(f"generated subscription methods: {len(cases)} real packages driven")
+
+
+
+# --------------------------------------------------------------------------------------------
+# the CONNECTION side: many subscriptions on ONE client object sharing dict objects
+# (Model/WsClientHeap.lean; Properties/C13.lean §9, §10)
+# --------------------------------------------------------------------------------------------
+# A session is {"kind": "session", "store": [dict, ...]          the caller's dict objects, address = position
+#               "ctor": {"headers": addr|None, "origin": str|None, "init": addr|None},
+#               "steps": [{"extra": addr|None, "kwargs": {...}, "opName": str|None, "vars": <vars spec>, "frames": [...],
+#                          "refuse": None|"OSError", "take": None|n}]}
+# The SAME Python dict object is handed to the constructor / to every step that names its address.
+
+SESSION_HDRS: List[Dict[str, Any]] = [
+    {"Authorization": "Bearer service-account", "X-Tenant": "acme"},   # 0: typical constructor dict
+    {"Authorization": "Bearer user-42", "X-Request-Id": "req-1"},       # 1: overrides a configured key + adds one
+    {},                                                                  # 2: empty (falsy: `ws_headers or {}` replaces it)
+    {"X-Trace": "t-1"},                                                  # 3: only new keys
+    {"token": "abc", "auth": {"scopes": ["a", None], "n": 1}},           # 4: an init payload
+]
+SESSION_SCRIPTS: List[List[Dict[str, Any]]] = [
+    [ACK, NEXT1, COMPLETE],
+    [ACK, NEXT1, PING, NEXT1, NEXT1],
+    [ACK, ERROR1],
+    [PING],
+    [],
+    [ACK, NEXT1, UNKNOWN, NEXT1],
+    [ACK, NEXT1, NEXT1, NEXT1, COMPLETE],
+]
+SESSION_KWARGS: List[Dict[str, Any]] = [{}, {}, {"open_timeout": 5}, {"origin": "https://kw.test"}, {"origin": None, "max_size": 1024}]
+
+
+def mk_step(extra: Optional[int] = None, frames: Optional[List[Dict[str, Any]]] = None, kwargs: Optional[Dict[str, Any]] = None,
+            vars_i: int = 0, take: Optional[int] = None, refuse: Optional[str] = None, op_name: Optional[str] = "S") -> Dict[str, Any]:
+    return {"extra": extra, "kwargs": dict(kwargs or {}), "opName": op_name, "vars": VARS_TABLE[vars_i % len(VARS_TABLE)][1],
+            "frames": list(SESSION_SCRIPTS[0] if frames is None else frames), "refuse": refuse, "take": take}
+
+
+def mk_session(ctor_headers: Optional[int], steps: List[Dict[str, Any]], origin: Optional[str] = None, init: Optional[int] = None,
+               label: str = "session") -> Dict[str, Any]:
+    return {"kind": "session", "label": label, "store": [dict(d) for d in SESSION_HDRS],
+            "ctor": {"headers": ctor_headers, "origin": origin, "init": init}, "steps": steps}
+
+
+def fixed_sessions() -> List[Dict[str, Any]]:
+    """always run, seed independent: the sharing patterns that matter"""
+    return [
+        # per-call headers (override + new key), then a call without: the second socket must see the configured ones
+        mk_session(0, [mk_step(extra=1), mk_step()], label="session-fixed"),
+        mk_session(0, [mk_step(), mk_step(extra=1), mk_step(extra=3), mk_step()], origin="https://origin.test", init=4, label="session-fixed"),
+        # no configured headers at all / an empty dict given to the constructor
+        mk_session(None, [mk_step(extra=1), mk_step(), mk_step(extra=3)], label="session-fixed"),
+        mk_session(2, [mk_step(extra=1), mk_step(extra=2), mk_step()], label="session-fixed"),
+        # the SAME dict object is the constructor's ws_headers and a call's extra_headers; one dict shared by two calls
+        mk_session(0, [mk_step(extra=0), mk_step(extra=1), mk_step(extra=1), mk_step()], label="session-fixed"),
+        # failed / refused / abandoned subscriptions are history too
+        mk_session(0, [mk_step(extra=1, frames=[PING]), mk_step(extra=3, refuse="OSError"), mk_step(extra=1, frames=SESSION_SCRIPTS[6], take=2),
+                       mk_step(frames=SESSION_SCRIPTS[6], take=0), mk_step()], init=4, label="session-fixed"),
+        mk_session(3, [mk_step(extra=1, kwargs={"origin": "https://kw.test"}), mk_step(kwargs={"subprotocols": ["x"]}), mk_step(extra=1, vars_i=13),
+                       mk_step(vars_i=5)], origin="", init=2, label="session-fixed"),
+    ]
+
+
+def random_sessions(ctx: Ctx, n: int, label: str = "session") -> List[Dict[str, Any]]:
+    rng = ctx.sub_rng(label)
+    out = []
+    for _ in range(n):
+        steps = []
+        for _k in range(rng.randint(1, 5)):
+            r = rng.random()
+            take = rng.choice([0, 1, 1, 2, 3]) if r < 0.25 else None
+            refuse = "OSError" if 0.25 <= r < 0.33 else None
+            steps.append(mk_step(extra=rng.choice([None, None, 0, 1, 1, 2, 3]), frames=rng.choice(SESSION_SCRIPTS),
+                                 kwargs=rng.choice(SESSION_KWARGS), vars_i=rng.choice([0, 0, 1, 2, 3, 5, 13]), take=take, refuse=refuse,
+                                 op_name=rng.choice(["S", "S", None, ""])))
+        out.append(mk_session(rng.choice([None, 0, 0, 2, 3]), steps, origin=rng.choice([None, "", "https://origin.test"]),
+                              init=rng.choice([None, None, 4, 2]), label=label))
+    return out
+
+
+def session_line(sess: Dict[str, Any], client: str, tracer: bool, sched: Optional[List[int]] = None) -> Dict[str, Any]:
+    steps = []
+    for st in sess["steps"]:
+        steps.append({"query": QUERY, "opName": st["opName"], "extra": st["extra"], "kwargs": wire.enc(st["kwargs"]), "opId": OP_ID,
+                      "vars": None if st["vars"] is None else [[k, pv_line(pv)] for k, pv in st["vars"]],
+                      "frames": [frame_line(f) for f in st["frames"]], "refuse": st.get("refuse"), "take": st.get("take")})
+    line: Dict[str, Any] = {"op": "session" if sched is None else "schedule", "client": client, "tracer": tracer,
+                            "store": [wire.enc(d) for d in sess["store"]],
+                            "ctor": {"wsUrl": URL, "headers": sess["ctor"]["headers"], "origin": sess["ctor"]["origin"], "init": sess["ctor"]["init"]},
+                            "steps": steps}
+    if sched is not None:
+        line["sched"] = sched
+    return line
+
+
+def decode_session_model(o: Dict[str, Any]) -> Dict[str, Any]:
+    obs = []
+    for x in o["obs"]:
+        if x is None:
+            obs.append(None)
+            continue
+        d = decode_model({"events": x["events"], "outcome": x["outcome"], "letters": [], "trig": {}})
+        obs.append({"events": d["events"], "outcome": d["outcome"], "release": x["release"]})
+    return {"client": o["client"], "store": [wire.dec(d) for d in o["store"]], "obs": obs}
+
+
+class RefusingConnection:
+    """`ws_connect(...)` returned, `__aenter__` raises: the server is not there"""
+
+    def __init__(self, exc: str) -> None:
+        self.exc = exc
+        self.entered = 0
+        self.exited = 0
+        self.last_raw = None
+
+    async def __aenter__(self) -> Any:
+        raise {"OSError": OSError}.get(self.exc, RuntimeError)("refused")
+
+    async def __aexit__(self, *exc: Any) -> None:
+        self.exited += 1
+
+
+async def _session_step(cl: Any, st: Dict[str, Any], objs: List[Dict[str, Any]], events: List[Any], conn_box: List[Any]) -> Tuple[Dict[str, Any], str]:
+    """one subscription, consumed the way the step says; returns (outcome, release)"""
+    exc_mod = clients.exceptions_module()
+    variables = None if st["vars"] is None else {k: pv_build(pv) for k, pv in st["vars"]}
+    kw = dict(st["kwargs"])
+    if st["extra"] is not None:
+        kw["extra_headers"] = objs[st["extra"]]  # the caller's object itself
+    take = st.get("take")
+    agen = cl.execute_ws(query=QUERY, operation_name=st["opName"], variables=variables, **kw)
+    outcome: Optional[Dict[str, Any]] = None
+    try:
+        if take == 0:
+            await agen.aclose()
+            outcome = {"o": "abandoned"}
+        else:
+            it = agen.__aiter__()
+            n = 0
+            while True:
+                try:
+                    item = await it.__anext__()
+                except StopAsyncIteration:
+                    break
+                events.append(["yield", item])
+                n += 1
+                if take is not None and n == take:
+                    await agen.aclose()
+                    outcome = {"o": "abandoned"}
+                    break
+    except exc_mod.GraphQLClientInvalidMessageFormat as e:
+        conn = conn_box[-1] if conn_box else None
+        msg = getattr(e, "message", None)
+        if conn is not None and conn.last_raw is not None and type(msg) is type(conn.last_raw) and msg == conn.last_raw:
+            outcome = {"o": "invalid", "arg": "frame"}
+        elif isinstance(msg, str) and msg.startswith("Invalid message received. Expected: "):
+            outcome = {"o": "invalid", "arg": "expected", "value": msg[len("Invalid message received. Expected: "):]}
+        else:
+            outcome = {"o": "invalid", "arg": "other:" + repr(msg)[:80]}
+    except exc_mod.GraphQLClientGraphQLMultiError as e:
+        outcome = canon_errors(exc_mod, e)
+    except Exception as e:  # anything else escaping
+        outcome = {"o": "internal", "exc": type(e).__name__, "msg": str(e)[:200]}
+    if outcome is None:
+        outcome = {"o": "completed"} if events and events[-1] == ["close"] else {"o": "exhausted"}
+    # when was the socket released?  (the consumer has control back right now)
+    conn = conn_box[-1] if conn_box else None
+    if conn is None or conn.entered == 0:
+        release = "not-opened"
+    elif conn.exited == conn.entered:
+        release = "sync"
+    else:
+        mark = len(events)
+        for _ in range(6):  # let the event loop finalise an orphaned inner generator
+            await asyncio.sleep(0)
+        release = "deferred" if conn.exited == conn.entered else "never"
+        if len(events) != mark:
+            release += "+events-after-the-consumer-stopped"
+    return outcome, release
+
+
+def observe_session(client: str, tracer: bool, sess: Dict[str, Any], sched: Optional[List[int]] = None) -> Dict[str, Any]:
+    """Run the REAL constructor and the REAL execute_ws calls of a session on ONE client object against
+    a scripted ws_connect that records (a deep copy of) its arguments.  `sched` = interleave instead:
+    the first occurrence of i starts subscription i and pulls until its first item, the second drains it."""
+    import copy
+    import logging
+
+    mod = _client_module(client)
+    objs = [copy.deepcopy(d) for d in sess["store"]]
+    before = copy.deepcopy(objs)
+    ctor = sess["ctor"]
+    cls = mod.AsyncBaseClient if client == "plain" else mod.AsyncBaseClientOpenTelemetry
+    ckw: Dict[str, Any] = dict(url="http://verif.test/graphql", http_client=_shared_http(), ws_url=URL,
+                               ws_headers=None if ctor["headers"] is None else objs[ctor["headers"]], ws_origin=ctor["origin"])
+    if ctor["init"] is not None:
+        ckw["ws_connection_init_payload"] = objs[ctor["init"]]
+    if client == "ot":
+        ckw["tracer"] = "verif-c13" if tracer else None
+    per_step: List[Tuple[List[Any], List[Any]]] = [([], []) for _ in sess["steps"]]
+    current = [0]
+
+    def fake_connect(*args: Any, **kwargs: Any) -> Any:
+        i = current[0]
+        events, conn_box = per_step[i]
+        events.append(["connect", list(args), copy.deepcopy(dict(kwargs))])
+        st = sess["steps"][i]
+        conn: Any = RefusingConnection(st["refuse"]) if st.get("refuse") else ScriptedConnection([raw_frame(f) for f in st["frames"]], events)
+        conn_box.append(conn)
+        return conn
+
+    saved = mod.ws_connect
+    mod.ws_connect = fake_connect
+    otel_log = logging.getLogger("opentelemetry")
+    saved_level = otel_log.level
+    otel_log.setLevel(logging.CRITICAL)  # "Failed to detach context" when an abandoned span is finalised in another context
+    results: List[Any] = [None] * len(sess["steps"])
+    try:
+        cl = cls(**ckw)
+        attrs_before = (cl.ws_headers, cl.ws_origin, cl.ws_connection_init_payload, cl.ws_url)
+        fresh = not any(cl.ws_headers is o for o in objs)
+        ws_addr = len(objs) if fresh else next(i for i, o in enumerate(objs) if cl.ws_headers is o)
+        known = objs + ([cl.ws_headers] if fresh else [])
+        known_before = copy.deepcopy(known)
+        changed_at: List[Any] = []
+
+        async def sequential() -> None:
+            for i, st in enumerate(sess["steps"]):
+                current[0] = i
+                results[i] = await asyncio.wait_for(_session_step(cl, st, objs, per_step[i][0], per_step[i][1]), CASE_TIMEOUT)
+                if not changed_at and not common.same_json(known, known_before, ordered=True):
+                    changed_at.append(i)
+
+        async def interleaved() -> None:
+            # generators only run while we await them, so `current` says whose socket is being opened
+            gens: Dict[int, Any] = {}
+            exc_mod = clients.exceptions_module()
+
+            async def pull(i: int, drain: bool) -> None:
+                st = sess["steps"][i]
+                events, conn_box = per_step[i]
+                if i not in gens:
+                    variables = None if st["vars"] is None else {k: pv_build(pv) for k, pv in st["vars"]}
+                    kw = dict(st["kwargs"])
+                    if st["extra"] is not None:
+                        kw["extra_headers"] = objs[st["extra"]]
+                    gens[i] = cl.execute_ws(query=QUERY, operation_name=st["opName"], variables=variables, **kw).__aiter__()
+                current[0] = i
+                try:
+                    while True:
+                        try:
+                            item = await gens[i].__anext__()
+                        except StopAsyncIteration:
+                            results[i] = ({"o": "completed"} if events and events[-1] == ["close"] else {"o": "exhausted"}, "sync")
+                            return
+                        events.append(["yield", item])
+                        if not drain:
+                            return
+                except exc_mod.GraphQLClientInvalidMessageFormat as e:
+                    conn = conn_box[-1] if conn_box else None
+                    msg = getattr(e, "message", None)
+                    if conn is not None and conn.last_raw is not None and type(msg) is type(conn.last_raw) and msg == conn.last_raw:
+                        results[i] = ({"o": "invalid", "arg": "frame"}, "sync")
+                    elif isinstance(msg, str) and msg.startswith("Invalid message received. Expected: "):
+                        results[i] = ({"o": "invalid", "arg": "expected", "value": msg[len("Invalid message received. Expected: "):]}, "sync")
+                    else:
+                        results[i] = ({"o": "invalid", "arg": "other:" + repr(msg)[:80]}, "sync")
+                except exc_mod.GraphQLClientGraphQLMultiError as e:
+                    results[i] = (canon_errors(exc_mod, e), "sync")
+                except Exception as e:  # anything else escaping
+                    results[i] = ({"o": "internal", "exc": type(e).__name__, "msg": str(e)[:200]}, "sync")
+
+            seen: Dict[int, int] = {}
+            for i in sched or []:
+                if i >= len(sess["steps"]):
+                    continue
+                seen[i] = seen.get(i, 0) + 1
+                if results[i] is None and seen[i] <= 2:
+                    await asyncio.wait_for(pull(i, drain=seen[i] >= 2), CASE_TIMEOUT)
+            for i, r in enumerate(results):
+                if r is not None and seen.get(i, 0) < 2:
+                    results[i] = None  # the model calls a subscription done at its second step
+                    r = None
+                if r is not None:
+                    conn_box = per_step[i][1]
+                    opened = bool(conn_box) and conn_box[-1].entered > 0
+                    rel = "not-opened" if not opened else ("sync" if conn_box[-1].exited == conn_box[-1].entered else "never")
+                    results[i] = (r[0], rel)
+            for g in gens.values():  # unfinished ones: close them so that nothing leaks into the next case
+                await g.aclose()
+            for _ in range(6):
+                await asyncio.sleep(0)
+
+        hang = False
+        try:
+            asyncio.run(sequential() if sched is None else interleaved())
+        except asyncio.TimeoutError:
+            hang = True
+        same_after = (cl.ws_headers is attrs_before[0] and cl.ws_origin == attrs_before[1]
+                      and cl.ws_connection_init_payload is attrs_before[2] and cl.ws_url == attrs_before[3])
+        store_after = copy.deepcopy(known)
+    finally:
+        mod.ws_connect = saved
+        otel_log.setLevel(saved_level)
+    obs: List[Any] = []
+    for i, r in enumerate(results):
+        if r is None:
+            obs.append({"events": [], "outcome": {"o": "hang"}, "release": "never"} if hang and sched is None else None)
+            continue
+        outcome, release = r
+        c = canon_observation(per_step[i][0], outcome, per_step[i][1])
+        c["release"] = release
+        obs.append(c)
+    return {"client": {"wsHeaders": ws_addr, "fresh": fresh, "same_after": same_after}, "store": store_after, "obs": obs,
+            "store_before": known_before, "changed_at": changed_at[0] if changed_at else None}
+
+
+def session_case_of_step(sess: Dict[str, Any], i: int) -> Dict[str, Any]:
+    """the stand-alone case step i MEANS: the contents the objects had before the first call"""
+    st, ctor = sess["steps"][i], sess["ctor"]
+    cfg = {"headers": None if ctor["headers"] is None else dict(sess["store"][ctor["headers"]]), "origin": ctor["origin"],
+           "extraHeaders": "<absent>" if st["extra"] is None else dict(sess["store"][st["extra"]]), "kwargs": dict(st["kwargs"]),
+           "opName": st["opName"], "init": "<absent>" if ctor["init"] is None else sess["store"][ctor["init"]]}
+    return {"label": "session-step", "cfg": cfg, "vars": st["vars"], "frames": st["frames"]}
+
+
+def alone_session(sess: Dict[str, Any], i: int) -> Dict[str, Any]:
+    return {**sess, "steps": [sess["steps"][i]]}
+
+
+def obs3(o: Optional[Dict[str, Any]]) -> Any:
+    return None if o is None else {"events": o["events"], "outcome": o["outcome"], "release": o["release"]}
+
+
+def session_oracle(client: str, tracer: bool, sess: Dict[str, Any], got: Dict[str, Any]) -> List[Tuple[str, Optional[str], str]]:
+    """'Each socket is opened with the configured headers overridden by that call's extra_headers and nothing else; a call
+    does not modify the configured state; calls are independent of history' - stated on the REAL client, without the model."""
+    fails: List[Tuple[str, Optional[str], str]] = []
+    if not common.same_json(got["store"], got["store_before"], ordered=True):
+        diff = [i for i, (a, b) in enumerate(zip(got["store"], got["store_before"])) if not common.same_json(a, b, ordered=True)]
+        who = ["the dict behind self.ws_headers" if i == got["client"]["wsHeaders"] else f"caller dict #{i}" for i in diff]
+        fails.append(("call-modifies-configured-state", None,
+                      f"{', '.join(who)} changed during subscription #{got['changed_at']}: {json.dumps([got['store'][i] for i in diff])[:200]} "
+                      f"was {json.dumps([got['store_before'][i] for i in diff])[:200]}"))
+    if not got["client"]["same_after"]:
+        fails.append(("call-rebinds-client-attributes", None, "ws_headers / ws_origin / ws_connection_init_payload / ws_url is another object afterwards"))
+    for i, st in enumerate(sess["steps"]):
+        o = got["obs"][i]
+        if o is None:
+            continue
+        if o["outcome"]["o"] == "hang":
+            fails.append(("hang", None, f"subscription #{i}"))
+            continue
+        if "never" in o["release"] or "events-after" in o["release"]:
+            fails.append(("socket-not-released", None, f"subscription #{i}: {o['release']}"))
+        case = session_case_of_step(sess, i)
+        if st.get("take") == 0:
+            if o["events"] or o["outcome"] != {"o": "abandoned"}:
+                fails.append(("closed-before-start-but-ran", None, f"subscription #{i}: {json.dumps(o['events'], default=repr)[:200]}"))
+            continue
+        if "subprotocols" not in st["kwargs"]:
+            # the socket: configured headers overridden by THIS call's extra_headers, and nothing else
+            conn = [e for e in o["events"] if e[0] == "connect"]
+            if len(conn) != 1 or o["events"][0][0] != "connect":
+                fails.append(("connect-not-first-or-not-once", None, f"subscription #{i}"))
+                continue
+            c = conn[0][1]
+            hdrs = c["extra_headers"] if c["extra_headers"] != "<absent>" else c["kwargs"].get("additional_headers", "<absent>")
+            if hdrs == "<absent>" or dict(hdrs) != expected_headers(case["cfg"]):
+                fails.append(("connect-wrong-headers", None, f"subscription #{i} on the same client: socket opened with headers {json.dumps(hdrs)[:200]}, "
+                                                             f"expected {json.dumps(expected_headers(case['cfg']))[:200]}"))
+            if c["url"] != URL or c["subprotocols"] != [SUBPROTOCOL] or c["origin"] != expected_origin(case["cfg"]):
+                fails.append(("connect-wrong-url-subprotocol-or-origin", None, f"subscription #{i}: {json.dumps(c, default=repr)[:200]}"))
+        if st.get("refuse"):
+            if [e[0] for e in o["events"]] != ["connect"] or o["outcome"] != {"o": "internal", "exc": st["refuse"]} or o["release"] != "not-opened":
+                if "subprotocols" not in st["kwargs"]:
+                    fails.append(("refused-connection-mishandled", None, f"subscription #{i}: {json.dumps(obs3(o), default=repr)[:300]}"))
+            continue
+        if st.get("take") is None:
+            # a whole subscription: every clause of the protocol oracle, against the contents the caller configured
+            for sig, trigger, detail in oracle(case, {k: v for k, v in o.items() if k != "release"}):
+                fails.append((sig, trigger, f"subscription #{i}: {detail}"))
+        elif o["outcome"] == {"o": "abandoned"}:
+            ys = [e for e in o["events"] if e[0] == "yield"]
+            if len(ys) != st["take"] or o["events"][-1][0] != "yield":
+                fails.append(("abandoned-iterator-ran-on", None, f"subscription #{i}: {len(ys)} items for take={st['take']}, last event {o['events'][-1][0]}"))
+    # independence of history: each subscription shows what it shows ALONE on a fresh client built from the same dicts
+    if len(sess["steps"]) > 1:
+        for i in range(len(sess["steps"])):
+            if got["obs"][i] is None:
+                continue
+            alone = observe_session(client, tracer, alone_session(sess, i))["obs"][0]
+            if not common.same_json(obs3(got["obs"][i]), obs3(alone)):
+                fails.append(("subscription-depends-on-history", None,
+                              f"subscription #{i} after {i} earlier one(s): {json.dumps(obs3(got['obs'][i]), default=repr)[:300]} "
+                              f"alone: {json.dumps(obs3(alone), default=repr)[:300]}"))
+    return fails
+
+
+def shrink_session(client: str, tracer: bool, sess: Dict[str, Any], sig: str) -> Dict[str, Any]:
+    """drop steps / simplify steps while the same failure signature persists (structural, bounded)"""
+    def still(s2: Dict[str, Any]) -> bool:
+        try:
+            return any(f[0] == sig for f in session_oracle(client, tracer, s2, observe_session(client, tracer, s2)))
+        except Exception:
+            return False
+
+    cur = sess
+    changed = True
+    while changed and len(cur["steps"]) > 1:
+        changed = False
+        for i in range(len(cur["steps"])):
+            cand = {**cur, "steps": cur["steps"][:i] + cur["steps"][i + 1:]}
+            if cand["steps"] and still(cand):
+                cur, changed = cand, True
+                break
+    for i in range(len(cur["steps"])):
+        simple = {**cur["steps"][i], "frames": list(SESSION_SCRIPTS[0]), "vars": None, "kwargs": {}, "take": None, "refuse": None}
+        cand = {**cur, "steps": cur["steps"][:i] + [simple] + cur["steps"][i + 1:]}
+        if still(cand):
+            cur = cand
+    return cur
+
+
+def judge_sessions(ctx: Ctx, st: Optional[LeanStatus], sessions: List[Dict[str, Any]], res: Result, compare: bool = True) -> None:
+    model_out: Optional[List[Any]] = None
+    scheds: List[Optional[List[int]]] = []
+    rng = ctx.sub_rng("schedules")
+    for si, sess in enumerate(sessions):
+        # every third session is also run interleaved (no abandoned steps there: `take` is a sequential notion)
+        if si % 3 == 0 and all(s.get("take") is None for s in sess["steps"]):
+            order = [i for i in range(len(sess["steps"])) for _ in range(2)]
+            rng.shuffle(order)
+            scheds.append(order[: rng.randint(len(order) // 2, len(order))] if rng.random() < 0.3 else order)
+        else:
+            scheds.append(None)
+    if compare and st is not None and st.driver_ok:
+        lines: List[Dict[str, Any]] = []
+        for sess, sched in zip(sessions, scheds):
+            for client, tracer in VARIANTS:
+                lines.append(session_line(sess, client, tracer))
+                if sched is not None:
+                    lines.append(session_line(sess, client, tracer, sched))
+        model_out = common.run_driver(ctx.prop, lines)
+    mi = 0
+    kept: Dict[str, int] = {}
+    for sess, sched in zip(sessions, scheds):
+        res.seen(["session", sess["store"], sess["ctor"], sess["steps"]], nontrivial=len(sess["steps"]) > 1)
+        res.count("session:steps:%d" % len(sess["steps"]))
+        for s_ in sess["steps"]:
+            res.count("session:step:" + ("refused" if s_.get("refuse") else "abandoned" if s_.get("take") is not None else "whole")
+                      + (":extra_headers" if s_["extra"] is not None else ""))
+        for client, tracer in VARIANTS:
+            inp = {**sess, "client": client, "tracer": tracer}
+            try:
+                got = observe_session(client, tracer, sess)
+                fails = session_oracle(client, tracer, sess, got)
+            except (AttributeError, ImportError, TypeError) as e:
+                add_mismatch(res, Mismatch("session", inp, f"observer: {e!r}", None))
+                mi += 1 if sched is None else 2
+                continue
+            shrunk: Dict[str, Dict[str, Any]] = {}
+            for sig, trigger, detail in fails:
+                key = f"{trigger}|{sig}"
+                kept[key] = kept.get(key, 0) + 1
+                res.count("oracle-failure:" + key)
+                if kept[key] <= MAX_KEPT_PER_KEY:
+                    small = inp
+                    if trigger is None and kept[key] <= 2:
+                        if sig not in shrunk:
+                            shrunk[sig] = shrink_session(client, tracer, sess, sig)
+                        small = {**shrunk[sig], "client": client, "tracer": tracer}
+                    res.failures.append(Failure(sig, trigger, small, f"{client}{'+tracer' if tracer else ''}: {detail}"))
+            for o in got["obs"]:
+                if o is not None:
+                    res.count("session:release:" + o["release"])
+            if model_out is not None:
+                m = model_out[mi]
+                mi += 1
+                if "ill_formed" in m:
+                    add_mismatch(res, Mismatch("session", inp, "runs", m))
+                else:
+                    dm = decode_session_model(m)
+                    have = {"client": got["client"], "store": got["store"], "obs": [obs3(o) for o in got["obs"]]}
+                    want = {"client": dm["client"], "store": dm["store"], "obs": dm["obs"]}
+                    if not common.same_json(have, want):
+                        regions = [k for i in range(len(sess["steps"])) for k, v in triggers(session_case_of_step(sess, i)).items()
+                                   if v and k != "extraHeadersKwarg"]
+                        add_mismatch(res, Mismatch("session", inp, have, want, trigger=regions[0] if regions and all(t is not None for _, t, _ in fails) else None))
+            if sched is not None:
+                try:
+                    got2 = observe_session(client, tracer, sess, sched)
+                except (AttributeError, ImportError, TypeError) as e:
+                    add_mismatch(res, Mismatch("schedule", {**inp, "sched": sched}, f"observer: {e!r}", None))
+                    mi += 1
+                    continue
+                res.count("session:interleaved")
+                # oracle: interleaving changes nothing - finished subscriptions show what they show alone, no dict is touched
+                if not common.same_json(got2["store"], got2["store_before"], ordered=True):
+                    res.failures.append(Failure("call-modifies-configured-state", None, {**inp, "sched": sched}, "interleaved subscriptions"))
+                for i, o in enumerate(got2["obs"]):
+                    if o is not None and not common.same_json(obs3(o), obs3(observe_session(client, tracer, alone_session(sess, i))["obs"][0])):
+                        res.failures.append(Failure("subscription-depends-on-history", None, {**inp, "sched": sched},
+                                                    f"{client}: interleaved subscription #{i} differs from the stand-alone one"))
+                if model_out is not None:
+                    m = model_out[mi]
+                    mi += 1
+                    if "ill_formed" in m:
+                        add_mismatch(res, Mismatch("schedule", {**inp, "sched": sched}, "runs", m))
+                    else:
+                        dm = decode_session_model(m)
+                        have = {"store": got2["store"], "obs": [obs3(o) for o in got2["obs"]]}
+                        want = {"store": dm["store"], "obs": dm["obs"]}
+                        if not common.same_json(have, want):
+                            add_mismatch(res, Mismatch("schedule", {**inp, "sched": sched}, have, want))
+
+
+def run_sessions(ctx: Ctx, st: Optional[LeanStatus], res: Result, n_random: int, compare: bool = True) -> None:
+    sessions = fixed_sessions() + random_sessions(ctx, n_random)
+    judge_sessions(ctx, st, sessions, res, compare)
+    ctx.log(f"sessions: {len(sessions)} sequences of subscriptions on one client object x {len(VARIANTS)} variants")
 
 
 # --------------------------------------------------------------------------------------------
@@ -1979,6 +2706,7 @@ def run(ctx: Ctx, st: Optional[LeanStatus]) -> Result:
     validate_connect_spec(ctx, st, res)
     ctx.log("loopback done")
     run_generated(ctx, st, res, ctx.budget(14, 90))
+    run_sessions(ctx, st, res, ctx.budget(150, 1500))
     todo = product_cases()
     ex = exhaustive_cases(ctx)
     todo += ex
@@ -1989,9 +2717,13 @@ def run(ctx: Ctx, st: Optional[LeanStatus]) -> Result:
         "every frame sequence over the %s up to length %d, alone and behind a connection_ack, each paired with a rotating "
         "configuration / init payload / variables choice; a {init} x {variables} x {configuration} product on 5 fixed scripts; seeded random "
         "sequences of length 4..12 over %d frame variants; every case on the plain client, the OT client without and with a tracer. "
-        "Plus REAL generated packages (2 fixed with the shadowing variable names + seeded random ones: variables named query/variables/"
-        "response/data, underscored and plain names, snake-casing on/off, plain and OT base client), every generated subscription method "
-        "driven with all / only required / mixed arguments on two scripts. "
+        "Plus REAL generated packages (2 fixed with the shadowing variable names, 1 with a datetime custom scalar + seeded random ones: "
+        "variables named query/variables/response/data, underscored and plain names, snake-casing on/off, plain and OT base client), every "
+        "generated subscription method driven with all / only required / mixed arguments on two scripts. "
+        "Plus SESSIONS: 7 fixed + seeded random sequences of 1..5 execute_ws calls on ONE real client object per variant (constructor dict "
+        "None / empty / non-empty, per-call extra_headers absent / own dict / dict shared between calls / the constructor's dict itself, "
+        "whole, failing, refused and abandoned (aclose after 0..3 items) subscriptions), a third of them also interleaved under a seeded "
+        "schedule; a session is non-trivial when it has more than one subscription. "
         "A case is non-trivial when the handshake completes and at least one frame reaches the streaming loop; distinct = distinct "
         "(configuration, variables, frame list)."
         % ((("10-letter alphabet (length 5) and the 16-letter variant alphabet (length 3)", 5) if ctx.thorough
@@ -1999,12 +2731,15 @@ def run(ctx: Ctx, st: Optional[LeanStatus]) -> Result:
     )
     res.extra["exhaustive_sequences"] = len(ex)
     res.oracle_only += [
+        "sessions: 'each subscription equals the one run alone on a fresh client built from the same dicts' is judged by running the REAL client alone (no model involved); the moment an abandoned socket is released (sync / deferred to the event loop's async-generator finaliser) is compared with the model and not judged",
         "generated method: that payload.query PARSES to the authored operation + its fragments, and that each yielded item equals Ret.model_validate(data) (pydantic, C01) are oracle-only; the model takes the emitted operation string, parameter list and variables dict (ArgumentsGenerator, C03) as inputs and decides which names/values reach execute_ws",
         "the real handshake (websockets.connect against an in-process websockets.serve on 127.0.0.1): oracle only; the model's connect is abstract",
         "pydantic's model_dump(by_alias=True, exclude_unset=True) is an input of the model (PV.model carries the dump); the oracle states the expected dump from the field/alias table",
         "OpenTelemetry spans (names, attributes) are not part of the compared trace",
     ]
     res.assumptions += [
+        "a scripted ws_connect stands for websockets.connect: it records a deep copy of its keyword arguments at call time; `refuse` = its __aenter__ raises OSError",
+        "CPython reference counting + asyncio's async-generator hooks finalise an orphaned inner generator within a few loop iterations (the harness yields to the loop 6 times before calling a socket unreleased)",
         "scripted connection = websockets.asyncio ClientConnection as far as the client can tell: recv() delivers frames in order, recv()/send() after close or after the script ran out raise ConnectionClosedOK (server closed with 1000), __aiter__ ends on ConnectionClosedOK; validated by the loopback-shim runs against the real library (frames buffered by the real library before a client-side close may still be delivered there; no script sends frames after a terminal one on the real socket)",
         "uuid4() is a parameter of the model; the harness checks the id is a uuid4 string and unique per run, then replaces it by a placeholder",
         "json.loads(frame) raises JSONDecodeError on text frames that are not JSON and UnicodeDecodeError on binary frames that are not UTF-8 (checked per frame spec by the harness)",
@@ -2030,6 +2765,7 @@ def search(ctx: Ctx) -> Result:
             todo.append(make_case(lead + s, n, n // 5, n // 3, label="search"))
     judge_parallel(ctx, None, todo, res, compare=False)
     run_generated(ctx, None, res, 60, compare=False)
+    run_sessions(ctx, None, res, 1500, compare=False)
     return res
 
 
@@ -2050,6 +2786,21 @@ def replay(ctx: Ctx, payload: Dict[str, Any]) -> int:
             print(f.signature, "-", f.detail[:400])
         print("->", sorted({f.signature for f in sub.failures}) or "ok")
         return 1 if sub.failures else 0
+    if inp.get("kind") == "session":
+        sess = {k: v for k, v in inp.items() if k not in ("client", "tracer", "sched")}
+        for client, tracer in variants:
+            got = observe_session(client, tracer, sess)
+            fails = session_oracle(client, tracer, sess, got)
+            for i, o in enumerate(got["obs"]):
+                conn = [e[1] for e in (o or {}).get("events", []) if e[0] == "connect"]
+                print(f"{client} {'tracer' if tracer else '-'} subscription #{i}: extra_headers={json.dumps(sess['steps'][i]['extra'])} -> socket headers "
+                      f"{json.dumps(conn[0]['extra_headers']) if conn else None} outcome {json.dumps((o or {}).get('outcome'), default=repr)[:120]}")
+            print(f"{client} {'tracer' if tracer else '-'} caller dicts afterwards: {json.dumps(got['store'])[:300]}")
+            for f in fails:
+                print("  FAIL", f[0], "-", f[2][:400])
+            print("->", sorted({f[0] for f in fails}) or "ok")
+            rc = rc or (1 if fails else 0)
+        return rc
     if inp.get("kind", "").startswith("loopback"):
         for client, tracer in variants:
             got = loopback(client, tracer, inp, shim=inp["kind"] == "loopback-shim")
